@@ -4,7 +4,7 @@ PROPS[pid]["rules"] = [(rule id, floor of decided instances, selector over insta
 Floors are the numbers counted on the tree the rules were written against: a rule that suddenly
 matches fewer sites is a broken check (exit 2), never a silent pass.
 """
-from . import wf, dp, dt, he, gl, ts, ee, sl, wp, fs, ic, nb, im, rn, mp, sp, ms, cp, sh, st
+from . import wf, dp, dt, he, gl, ts, ee, sl, wp, fs, ic, nb, im, rn, mp, sp, ms, cp, sh, st, rh, vo, wi
 
 
 def has(*subs):
@@ -36,6 +36,9 @@ RULES = {
     "CP": {"run": cp.run},
     "SH": {"run": sh.run},
     "ST": {"run": st.run},
+    "RH": {"run": rh.run},
+    "VO": {"run": vo.run},
+    "WI": {"run": wi.run},
 }
 
 BDD_T = ("BddNode", "BddPtr")
@@ -47,7 +50,7 @@ PROPS = {
         "rules": [("CP", 19, has("builder::bdd::", "repr::bdd::BddPtr", "cache::all_app", "cache::lru_app")),
                   ("IM", 14, has("IM2", "IM3")), ("HE", 2, has("BddNode:scratch", "BddNode:fields")),
                   ("DT", 7, has("BddPtr", "BottomUpBuilder::or:", "BottomUpBuilder::compose:")),
-                  ("FS", 2, has("or_lst", "and_lst")), ("ST", 2, None),
+                  ("FS", 2, has("or_lst", "and_lst")), ("ST", 2, None), ("GL", 1, has("GL6")), ("VO", 14, None),
                   ("SH", 5, has("RobddBuilder", "BottomUpBuilder<repr::bdd::BddPtr> for T>::var"))],
         "explanation": "Six structural clauses of BDD operation correctness. (e) the standard-triple normalisation Ite::new "
                        "preserves ite(f,g,h) on every path for every truth assignment (ST: exhaustive abstract interpretation over "
@@ -100,7 +103,7 @@ PROPS = {
     },
     "C08": {
         "level": "other",
-        "rules": [("SL", 6, None), ("CP", 3, has("smooth_helper"))],
+        "rules": [("SL", 7, None), ("CP", 3, has("smooth_helper")), ("VO", 2, has("var_at_level"))],
         "explanation": "Level bookkeeping of smooth_helper: every node built is labelled with var_at_level(current) or with a "
                        "node variable that a dominating test equates with it, children recurse one level down, smooth starts "
                        "at level 0 (SL); the complemented arm is sign-coherent (CP); callers count on smooth(_, num_vars) "
@@ -131,7 +134,7 @@ PROPS = {
     "C02": {
         "level": "other",
         "rules": [("GL", 2, has("GL3")), ("TS", 3, has("TS-OCC")), ("HE", 4, has(*BDD_T)),
-                  ("RN", 4, has("RN1", "RN2")), ("IM", 37, has("IM3", "IM4", "IM2"))],
+                  ("RN", 4, has("RN1", "RN2")), ("IM", 37, has("IM3", "IM4", "IM2")), ("RH", 13, None)],
         "explanation": "Structural necessary conditions of ROBDD canonicity: the unique table returns a stored node only "
                        "for an equal request (hash equal AND (by-hash OR structural equality), GL3) and must be able to "
                        "find every stored node (only occupied elements are re-inserted, re-homed with probe length 0, "
@@ -144,7 +147,7 @@ PROPS = {
     "C04": {
         "level": "other",
         "rules": [("RN", 8, has("RN3")), ("HE", 7, has(*SDD_T)), ("GL", 2, has("GL3")), ("TS", 3, has("TS-OCC")),
-                  ("IM", 22, has("IM4"))],
+                  ("IM", 22, has("IM4")), ("RH", 13, None)],
         "explanation": "Order of SDD canonicalisation steps on every path to the unique tables (trim, compress, trim, sort, "
                        "sign-normalise, intern: RN3), Hash/Eq agreement of BinarySDD/SddOr/SddAnd and identity Hash/Eq of "
                        "SddPtr (HE), the shared unique-table rules (GL3, TS-OCC), nodes enter only through the tables (IM4). "
@@ -155,7 +158,8 @@ PROPS = {
         "level": "other",
         "rules": [("DP", 21, has("compile_logical_expr", "compile_plan", "BottomUpPlan::")),
                   ("FS", 10, has("compile_cnf", "or_lst", "and_lst", "from_dtree")), ("DT", 1, has("BottomUpBuilder::or:")),
-                  ("SH", 5, has(":CC:"))],
+                  ("SH", 5, has(":CC:")), ("ST", 2, None), ("GL", 1, has("GL6")),
+                  ("CP", 3, has("cond_with_alloc", "condition_essential"))],
         "explanation": "Every variant of LogicalExpr and BottomUpPlan is compiled by its namesake operation with operands in "
                        "order, a dtree becomes a conjunction of clause disjunctions of the literal's own label and polarity "
                        "with the empty clause false (DP; none of these arms is executed by the test-suite); empty-formula / "
@@ -165,7 +169,7 @@ PROPS = {
     },
     "C09": {
         "level": "other",
-        "rules": [("WP", 17, has("unit_prop")), ("TS", 5, has("TS-STK"))],
+        "rules": [("WP", 17, has("unit_prop")), ("TS", 5, has("TS-STK")), ("WI", 1, None)],
         "explanation": "Every pos/neg watch-list / occurrence-table access in unit_prop.rs is selected by the polarity of "
                        "the same literal that indexes it, insertions go to the literal's own table, reads keyed by one "
                        "literal use one side (WP); SATSolver::decide pushes exactly one state on non-UNSAT paths and none on "
@@ -184,7 +188,7 @@ PROPS = {
     },
     "C14": {
         "level": "other",
-        "rules": [("IC", 13, hasnot("repr::cnf::Cnf::from_dimacs"))],
+        "rules": [("IC", 13, hasnot("repr::cnf::Cnf::from_dimacs")), ("VO", 14, None)],
         "explanation": "Dimension analysis (Index / Count / OneBased): every function called num_vars returns a count, every "
                        "num_vars field is initialised with a count, label-indexed table sizes are counts (IC). Not decided: "
                        "permutation-ness of heuristic orders, dtree cutsets, LCA / in-order index arithmetic.",
@@ -201,7 +205,7 @@ PROPS = {
     },
     "C16": {
         "level": "proof",
-        "rules": [("GL", 8, hasnot("GL3", "component-cache")), ("CP", 2, has("IteTable:compl-flag")), ("ST", 2, None)],
+        "rules": [("GL", 8, hasnot("GL3", "component-cache", "GL6")), ("CP", 2, has("IteTable:compl-flag")), ("ST", 2, None)],
         "explanation": "Complete structural argument for the first sentence: Lru::get returns Some(e.val) only under the "
                        "true edge of e.key == key (GL1); insert writes one Element{key,val,hash} of its own arguments into "
                        "the slot that get reads, grow re-inserts whole triples (GL2); the adapter's hash is a function of "
@@ -231,7 +235,7 @@ PROPS = {
     },
     "C19": {
         "level": "other",
-        "rules": [("MP", 6, None), ("SL", 6, None)],
+        "rules": [("MP", 6, None), ("SL", 7, None)],
         "explanation": "In each tool the counted / serialised diagram is the compiled one, compiled on a builder whose order "
                        "comes from the same formula; counts are taken on smooth(_, num_vars); weights are keyed by the "
                        "expression's own variable mapping (MP, SL2). Not decided: the printed numbers.",
